@@ -79,7 +79,9 @@ Print Assumptions C10_free_bound.
     the *contract*, whatever the authenticated key [t] of the transport peer is — over exactly that revision
     (and the renter's own signature over it) and charges exactly the locally computed
     price-table cost and collateral. For replenish the zero-cost branch returns the
-    caller's revision unchanged, so its signature is the caller's. *)
+    caller's revision unchanged, so its signature is the caller's. The last two conjuncts are
+    the contracts returned by form and by renew / refresh ([contract_bound]: the renter's own
+    contract, [Sig hk] over exactly it, the local cost). *)
 Theorem C10_revision_signed_and_priced :
   ∀ t c p,
   (∀ sp offset length r res roots, client_roots t c sp offset length r = Ok (res, roots) →
@@ -97,9 +99,30 @@ Theorem C10_revision_signed_and_priced :
      contract_signed c →
      signed_by_both c res
      ∧ (charged c res (sum_N (deps.*2)) 0
-        ∨ (sum_N (deps.*2) = 0 ∧ rr_view res = c_view c ∧ rr_usage res = usage0))).
+        ∨ (sum_N (deps.*2) = 0 ∧ rr_view res = c_view c ∧ rr_usage res = usage0)))
+  ∧ (∀ hk rk mine my_rest funded host_cost cost r1 r3 res,
+     client_form t hk rk mine my_rest funded host_cost cost r1 r3 = Ok res → contract_bound hk rk mine cost res)
+  ∧ (∀ mine my_rest funded host_cost cost r1 r3 res,
+     client_renew t c mine my_rest funded host_cost cost r1 r3 = Ok res →
+     contract_bound (c_hk c) (c_rk c) mine cost res).
 Proof. exact revision_signed_and_priced. Qed.
 Print Assumptions C10_revision_signed_and_priced.
+
+(** form, renew, refresh (both): the contract the call returns is the contract the renter built
+    and signed ([mine], with the keys [hk], [rk]; for renew/refresh the keys of the existing
+    contract), it carries [Sig hk] over exactly that contract whatever the transport peer key [t]
+    is and whatever object the host put into its final transaction, and the cost is the locally
+    computed one; for renew/refresh the host also signed the renter's own renewal. *)
+Theorem C10_contract_returned_is_contract_signed :
+  (∀ t hk rk mine my_rest funded host_cost cost r1 r3 res,
+     client_form t hk rk mine my_rest funded host_cost cost r1 r3 = Ok res → contract_bound hk rk mine cost res)
+  ∧ (∀ t c mine my_rest funded host_cost cost r1 r3 res,
+     client_renew t c mine my_rest funded host_cost cost r1 r3 = Ok res →
+     contract_bound (c_hk c) (c_rk c) mine cost res
+     ∧ ∃ f nc rest, r3 = Some f
+         ∧ rf_resolutions f = [ResRenewal nc rest (Sig (c_hk c) (MRenewal (c_hk c) (c_rk c) mine my_rest))]).
+Proof. exact contract_returned_is_contract_signed. Qed.
+Print Assumptions C10_contract_returned_is_contract_signed.
 
 (** replenish: every deposit ≤ target, one deposit per account, and the charge is the sum
     of the deposits, at most target × number of accounts. *)
@@ -130,6 +153,10 @@ Theorem C10_else_error :
   ∧ (∀ t c deposits r, ¬ (∃ v' u fr, fund_ok c deposits r v' u fr) → client_fund t c deposits r = Err)
   ∧ (∀ t c accounts target r1 r3, ¬ (∃ deps, replenish_ok c accounts target r1 r3 deps) →
        client_replenish t c accounts target r1 r3 = Err)
+  ∧ (∀ t hk rk mine my_rest funded host_cost cost r1 r3, ¬ form_ok hk rk mine my_rest funded host_cost r1 r3 →
+       client_form t hk rk mine my_rest funded host_cost cost r1 r3 = Err)
+  ∧ (∀ t c mine my_rest funded host_cost cost r1 r3, ¬ (∃ nc, renew_ok c mine my_rest funded host_cost r1 r3 nc) →
+       client_renew t c mine my_rest funded host_cost cost r1 r3 = Err)
   ∧ (∀ A (r : option A), r = None → client_pass r = Err).
 Proof. exact else_error. Qed.
 Print Assumptions C10_else_error.
